@@ -28,6 +28,7 @@ func c16(c *Ctx) {
 	c16queueEmpty(c)
 	c16set(c)
 	c16ring(c)
+	c16deleters(c)
 }
 
 // countPred evaluates a boolean sym that only compares the load of field `field` with integer constants,
